@@ -35,11 +35,9 @@ def KEY : Nat := Gen.Fee.COMPRESSED_PUB_KEY_SIZE.toNat
 
 def zeros (n : Nat) : Bytes := List.replicate n 0
 
-/-- `_pub_key_size` -/
+/-- `_pub_key_size` (translated: `Gen.Fee.pub_key_size`) on the fields of the input -/
 def pubKeySize (H : Bytes → Bytes) (pin : SizeIn) (payload : Bytes) : Nat :=
-  match pin.hdKeys.find? (fun k => H k == payload) with
-  | some k => k.length
-  | none => KEY
+  (Gen.Fee.pub_key_size H pin.hdKeys payload).toNat
 
 /-- `_solution_sizes` -/
 def solutionSizes (H : Bytes → Bytes) (ty : Ty) (payload : Bytes) (pin : SizeIn) : Option (List Nat) :=
